@@ -272,7 +272,7 @@ impl Property for C11 {
         while names.len() < n {
             // monotone pick: an exhausted choice sequence walks through the pool in order
             let start = c.below(NAMES.len());
-            let cand = (0..NAMES.len()).map(|d| NAMES[(start + d) % NAMES.len()]).find(|x| !names.iter().any(|y| y == x)).unwrap_or("a");
+            let cand = (0..NAMES.len()).map(|d| NAMES[(start + d) % NAMES.len()]).find(|x| !names.iter().any(|y| y.trim_start_matches("r#") == x.trim_start_matches("r#"))).unwrap_or("a");
             names.push(cand.to_string());
         }
         let mut elems: Vec<Value> = vec![];
@@ -290,7 +290,8 @@ impl Property for C11 {
             }
             _ => {
                 // alias stability: imports that differ only in alias keep their relative order
-                let aliases: Vec<String> = (0..(2 + c.below(3))).map(|i| format!("{}{}", ["Z", "a", "M", "b0", "B"][c.below(5)], i)).collect();
+                // (an alias equal to the imported name is redundant and dropped: not generated)
+                let aliases: Vec<String> = (0..(2 + c.below(3))).map(|i| format!("{}{}_al", ["Z", "a", "M", "b0", "B"][c.below(5)], i)).collect();
                 json!({"kind": "alias", "style_edition": se, "path": names[0], "aliases": aliases})
             }
         }
